@@ -16,6 +16,11 @@ pub fn build(tree: &T) -> Result<G, GameError> {
     Game::from_root(TN(tree.clone()))
 }
 
+/// the same tree handed over through iterators with inexact size hints (mode 1..3)
+pub fn build_lazy(tree: &T, mode: u8) -> Result<G, GameError> {
+    Game::from_root(crate::tree::TL(tree.clone(), mode))
+}
+
 /// named input covering every infoset (multi-action from the profile, single-action with 1.0)
 pub fn named_input(info: &Info, prof: &Profile) -> Named {
     let mut res: Named = Default::default();
